@@ -49,23 +49,44 @@ theorem ediv_eq_floor (n q : Int) (hq : 0 < q) : n / q = ⌊(n : ℚ) / (q : ℚ
   rw [hc, hq'] at h
   exact h.symm
 
-/-- the model's exact rounding is the rational floor of `gap · factor` -/
-theorem exactFloor_eq_floor (f : Fac) (hq : 0 < f.q) (g : Int) (c : Bool) :
-    exactFloor f g c = ⌊(g : ℚ) * f.val c⌋ := by
-  unfold exactFloor
-  rw [ediv_eq_floor _ _ hq, ← num_div f hq c]
+/-- the value of the duration factor as a rational number -/
+def Fac.ratio (f : Fac) : ℚ := (f.p : ℚ) / (f.q : ℚ)
+
+theorem val_false (f : Fac) : f.val false = f.ratio := rfl
+theorem val_true (f : Fac) : f.val true = 1 - f.ratio := rfl
+
+theorem ediv_mul_eq_floor (g n q : Int) (hq : 0 < q) :
+    (g * n) / q = ⌊(g : ℚ) * ((n : ℚ) / (q : ℚ))⌋ := by
+  rw [ediv_eq_floor _ _ hq]
   congr 1
   push_cast
   ring
 
-theorem startOffsetCeil_eq_ceil (f : Fac) (hq : 0 < f.q) (g : Int) (c : Bool) :
-    startOffsetCeil f g c = ⌈(g : ℚ) * f.val c⌉ := by
-  unfold startOffsetCeil
-  rw [ediv_eq_floor _ _ hq, ← num_div f hq c]
-  have h : ((-(g * f.num c) : Int) : ℚ) / (f.q : ℚ) = -((g : ℚ) * ((f.num c : ℚ) / (f.q : ℚ))) := by
+theorem neg_ediv_mul_eq_ceil (g n q : Int) (hq : 0 < q) :
+    -((-(g * n)) / q) = ⌈(g : ℚ) * ((n : ℚ) / (q : ℚ))⌉ := by
+  rw [ediv_eq_floor _ _ hq]
+  have h : ((-(g * n) : Int) : ℚ) / (q : ℚ) = -((g : ℚ) * ((n : ℚ) / (q : ℚ))) := by
     push_cast
     ring
   rw [h, Int.floor_neg, neg_neg]
+
+/-- the model's exact rounding is the rational floor / ceiling of `duration · f` -/
+theorem exact_lo_eq_floor (f : Fac) (hq : 0 < f.q) (g : Int) :
+    (exactRounding f).lo g = ⌊(g : ℚ) * f.ratio⌋ := ediv_mul_eq_floor g f.p f.q hq
+
+theorem exact_hi_eq_ceil (f : Fac) (hq : 0 < f.q) (g : Int) :
+    (exactRounding f).hi g = ⌈(g : ℚ) * f.ratio⌉ := neg_ediv_mul_eq_ceil g f.p f.q hq
+
+/-- the code before the repairs, in exact arithmetic: `⌊g·a⌋` and `⌈g·b⌉` -/
+theorem endOffsetOrig_eq_floor (f : Fac) (hq : 0 < f.q) (g : Int) (c : Bool) :
+    endOffsetOrig f g c = ⌊(g : ℚ) * f.val c⌋ := by
+  unfold endOffsetOrig
+  rw [ediv_mul_eq_floor _ _ _ hq, num_div f hq c]
+
+theorem startOffsetOrig_eq_ceil (f : Fac) (hq : 0 < f.q) (g : Int) (c : Bool) :
+    startOffsetOrig f g c = ⌈(g : ℚ) * f.val c⌉ := by
+  unfold startOffsetOrig
+  rw [neg_ediv_mul_eq_ceil _ _ _ hq, num_div f hq c]
 
 /-- the split identity over ℚ -/
 theorem ceil_add_floor_compl (g : Int) (x : ℚ) : ⌈(g : ℚ) * x⌉ + ⌊(g : ℚ) * (1 - x)⌋ = g := by
@@ -73,17 +94,35 @@ theorem ceil_add_floor_compl (g : Int) (x : ℚ) : ⌈(g : ℚ) * x⌉ + ⌊(g :
   rw [h, Int.floor_intCast_add, Int.floor_neg]
   omega
 
-/-- bounds of the exact rounding: `0 ≤ ⌊g·a⌋ ≤ g` for `0 ≤ a ≤ 1`, `0 ≤ g` -/
-theorem exactFloor_bounds (f : Fac) (hf : f.Valid) (g : Int) (c : Bool) (hg : 0 ≤ g) :
-    0 ≤ exactFloor f g c ∧ exactFloor f g c ≤ g := by
+theorem floor_add_ceil_compl (g : Int) (x : ℚ) : ⌊(g : ℚ) * x⌋ + ⌈(g : ℚ) * (1 - x)⌉ = g := by
+  have h := ceil_add_floor_compl g (1 - x)
+  have h' : (1 : ℚ) - (1 - x) = x := by ring
+  rw [h'] at h
+  omega
+
+/-- a rounding is admissible when both roundings return a whole number of days inside the
+interval -/
+def Admissible (ρ : Rounding) : Prop :=
+  ∀ g, 0 ≤ g → (0 ≤ ρ.lo g ∧ ρ.lo g ≤ g) ∧ (0 ≤ ρ.hi g ∧ ρ.hi g ≤ g)
+
+/-- bounds of the exact rounding: `0 ≤ ⌊g·f⌋ ≤ ⌈g·f⌉ ≤ g` for `0 ≤ f ≤ 1`, `0 ≤ g` -/
+theorem exactRounding_admissible (f : Fac) (hf : f.Valid) : Admissible (exactRounding f) := by
   obtain ⟨hq, hp0, hpq⟩ := hf
-  have hn0 : 0 ≤ f.num c := by unfold Fac.num; cases c <;> simp <;> omega
-  have hnq : f.num c ≤ f.q := by unfold Fac.num; cases c <;> simp <;> omega
-  unfold exactFloor
-  constructor
-  · exact Int.ediv_nonneg (Int.mul_nonneg hg hn0) (le_of_lt hq)
-  · apply Int.ediv_le_of_le_mul hq
-    exact Int.mul_le_mul_of_nonneg_left hnq hg
+  intro g hg
+  have h1 : 0 ≤ g * f.p := Int.mul_nonneg hg hp0
+  have h2 : g * f.p ≤ g * f.q := Int.mul_le_mul_of_nonneg_left hpq hg
+  unfold exactRounding
+  simp only []
+  refine ⟨⟨Int.ediv_nonneg h1 (le_of_lt hq), Int.ediv_le_of_le_mul hq h2⟩, ?_, ?_⟩
+  · have : (-(g * f.p)) / f.q ≤ 0 := by
+      apply Int.ediv_le_of_le_mul hq
+      omega
+    omega
+  · have : -g ≤ (-(g * f.p)) / f.q := by
+      apply Int.le_ediv_of_mul_le hq
+      have : -g * f.q = -(g * f.q) := by ring
+      omega
+    omega
 
 /-! ### stable sort by date -/
 
@@ -189,8 +228,33 @@ theorem winsFrom_cons (ρ : Rounding) (prev : Option Row) (x : Row) (rest : List
         rate := x.rate } :: winsFrom ρ (some x) rest := by
   cases prev <;> cases rest <;> rfl
 
-/-- a rounding is admissible when it returns a whole number of days inside the interval -/
-def Admissible (ρ : Rounding) : Prop := ∀ g c, 0 ≤ g → 0 ≤ ρ g c ∧ ρ g c ≤ g
+theorem startOffset_bounds (ρ : Rounding) (hρ : Admissible ρ) (g : Int) (c : Bool) (hg : 0 ≤ g) :
+    0 ≤ startOffset ρ g c ∧ startOffset ρ g c ≤ g := by
+  have := hρ g hg
+  unfold startOffset
+  cases c <;> simp <;> omega
+
+theorem endOffset_bounds (ρ : Rounding) (hρ : Admissible ρ) (g : Int) (c : Bool) (hg : 0 ≤ g) :
+    0 ≤ endOffset ρ g c ∧ endOffset ρ g c ≤ g := by
+  have := hρ g hg
+  unfold endOffset
+  cases c <;> simp <;> omega
+
+/-- the two offsets of one interval add up to its length, for every rounding whatsoever -/
+theorem offsets_meet (ρ : Rounding) (g r rn : Int) :
+    endOffset ρ g (nextCond r rn) + startOffset ρ g (prevCond r rn) = g := by
+  rw [prevCond_eq_not_nextCond]
+  unfold endOffset startOffset
+  cases nextCond r rn <;> simp
+
+theorem startOff_nonneg (ρ : Rounding) (hρ : Admissible ρ) (prev : Option Row) (x : Row)
+    (hprev : ∀ y, prev = some y → y.date ≤ x.date) : 0 ≤ startOff ρ prev x := by
+  unfold startOff
+  cases prev with
+  | none => exact (startOffset_bounds ρ hρ 0 false (le_refl 0)).1
+  | some y =>
+    have hy := hprev y rfl
+    exact (startOffset_bounds ρ hρ (x.date - y.date) _ (by omega)).1
 
 /-- chain lemma: for every admissible rounding the windows of date-sorted rows meet exactly -/
 theorem tiles_winsFrom (ρ : Rounding) (hρ : Admissible ρ) :
@@ -201,17 +265,10 @@ theorem tiles_winsFrom (ρ : Rounding) (hρ : Admissible ρ) :
   induction rest with
   | nil =>
     intro x prev hprev _
-    have h0 := hρ 0 false (le_refl 0)
-    have hso : 0 ≤ startOff ρ prev x := by
-      unfold startOff startOffset
-      cases prev with
-      | none => have := hρ 0 (!false) (le_refl 0); simp only []; omega
-      | some y =>
-        have hy := hprev y rfl
-        have := hρ (x.date - y.date) (!prevCond y.rate x.rate) (by omega)
-        simp only []; omega
+    have h0 := endOffset_bounds ρ hρ 0 false (le_refl 0)
+    have hso := startOff_nonneg ρ hρ prev x hprev
     rw [winsFrom_cons]
-    simp only [winsFrom, Tiles, lastDate, endOff, endOffset]
+    simp only [winsFrom, Tiles, lastDate, endOff]
     refine ⟨trivial, ?_, ?_⟩
     · omega
     · omega
@@ -219,27 +276,21 @@ theorem tiles_winsFrom (ρ : Rounding) (hρ : Admissible ρ) :
     intro x prev hprev hs
     have hx := List.pairwise_cons.mp hs
     have hxz : x.date ≤ z.date := hx.1 z (by simp)
-    have hso : 0 ≤ startOff ρ prev x := by
-      unfold startOff startOffset
-      cases prev with
-      | none => have := hρ 0 (!false) (le_refl 0); simp only []; omega
-      | some y =>
-        have hy := hprev y rfl
-        have := hρ (x.date - y.date) (!prevCond y.rate x.rate) (by omega)
-        simp only []; omega
-    have hr := hρ (z.date - x.date) (nextCond x.rate z.rate) (by omega)
+    have hso := startOff_nonneg ρ hρ prev x hprev
+    have hr := endOffset_bounds ρ hρ (z.date - x.date) (nextCond x.rate z.rate) (by omega)
     have ihz := ih z (some x) (by intro y hy; cases hy; exact hxz) hx.2
+    have hm := offsets_meet ρ (z.date - x.date) x.rate z.rate
     have hmeet : z.date - startOff ρ (some x) z
         = x.date + endOffset ρ (z.date - x.date) (nextCond x.rate z.rate) := by
-      unfold startOff startOffset endOffset
-      simp only [prevCond_eq_not_nextCond, Bool.not_not]
+      unfold startOff
+      simp only []
       omega
     rw [hmeet] at ihz
     unfold lastDate
     rw [winsFrom_cons]
     unfold Tiles
     refine ⟨rfl, ?_, ihz⟩
-    simp only [endOff, endOffset]
+    simp only [endOff]
     omega
 
 /-! ### one group: the sentinels bound the sorted rows -/
@@ -285,8 +336,8 @@ theorem tiles_groupWins (ρ : Rounding) (hρ : Admissible ρ) (S E : Int) (rows 
   unfold groupWins
   rw [hg]
   have h := tiles_winsFrom ρ hρ rest x none (by intro y hy; cases hy) hs
-  have h0 := hρ 0 (!false) (le_refl 0)
-  have hso : startOff ρ none x = 0 := by unfold startOff startOffset; simp only []; omega
+  have h0 := startOffset_bounds ρ hρ 0 false (le_refl 0)
+  have hso : startOff ρ none x = 0 := by unfold startOff; simp only []; omega
   rw [hso, hlast, hxS] at h
   simpa using h
 
